@@ -473,6 +473,13 @@ def true_band_fail(x, y, Fs, lb, ub, coded=False):
         tf = min(j, n - j) * F / (n - 1 if coded and n % 2 == 1 and n > 1 else n)
         if 0 < abs(tf - lbq) <= eps or 0 < abs(tf - ubq) <= eps:
             continue               # (an edge exactly ON a bin frequency does decide: the band is closed)
+        if (tf == lbq or tf == ubq) and not coded:
+            # ... provided float64 can tell: the bin frequency k*step evaluated in floats (an independent
+            # np.linspace) must be the exact value, otherwise the tie is below float resolution
+            h = min(j, n - j)
+            gf = float(np.linspace(0, Fs / 2, n // 2 + 1)[h]) if n % 2 == 0 else h * Fs / n
+            if Fraction(gf) != tf:
+                continue
         if lbq <= tf <= ubq:
             if abs(Y[j] - X[j]) > tol:
                 return (j, "bin inside the band (true frequency %s) is not kept" % float(tf), abs(Y[j]), abs(X[j]))
@@ -873,7 +880,7 @@ def run(ctx):
                  "the numpy statement checks of the search oracle (axis, mean, linearity, true-frequency band, idempotence)"],
         assumptions=["FIR/IIR pass-band gain, zero phase and stop-band attenuation are tested on probe sinusoids only (partial by design)",
                      "band edges within float rounding of a grid frequency are excluded from K (the float comparison is not modelled); "
-                     "edges exactly on representable grid frequencies are included",
+                     "edges exactly on representable grid frequencies are included (a tie whose float grid value k*step is itself rounded decides nothing, in K and in the oracle)",
                      "integer-valued data arrays are outside the quantifier (fir/iir/boxcar truncate them; observed, not checked)",
                      "iir with lb = 0 and ub = Nyquist (no filter setting) is rejected by scipy.signal.iirdesign; not counted"])
 
